@@ -8,5 +8,5 @@ MCGoodQuick == { T("t2c", {"t2"}), T("ib", {"ib"}), T("bb-r1", {"bb@1"}), T("bb-
 MCGood2 == { T("fd", {"fd"}), T("tgt", {"tgt"}), T("tgt2", {"tgt2"}), T("dv", {"dv"}), T("rv", {"rv@1"}), T("idm", {"idm"}), T("idb", {"idb"}), T("lnk", {"lnk"}), T("bg", {"bg"}),
              T("fm1", {"fm1"}), T("fm2", {"fm2"}), T("fs", {"fs"}) }
 MCBad2 == { "x-top-level-container", "x-top-level-grouping" }
-MCBad == { "x-top-level-grouping", "x-syntax", "x-typedefs-then-rejected", "x-unknown-top", "x-second-module-rejected" }
+MCBad == { "x-file-syntax", "x-top-level-grouping", "x-syntax", "x-typedefs-then-rejected", "x-unknown-top", "x-second-module-rejected" }
 ====
